@@ -119,7 +119,7 @@ def case_lit(d, S, out, zeros):
 
 
 def run(ctx):
-    ctx.prove()
+    ctx.prove(props=["C03", "C03_forms"])
     rng = ctx.rng
     count = 300 if ctx.quick else 6000
     max_n = 14 if ctx.quick else 18
@@ -188,6 +188,7 @@ def run(ctx):
                            implementation=str(out), model=model[-3000:]), False)
     if ctx.tier == "thorough":
         ctx.coqchk("VQP.C03")
+        ctx.coqchk("VQP.C03_forms")
 
 
 def replay(ctx, data):
